@@ -432,6 +432,7 @@ type Contract struct {
 	External   bool
 	Trusted    bool // body not verified here (stated assumption)
 	MayPanic   bool // explicit panic statements are allowed
+	Fresh      bool // result is memory allocated by the call
 	Params     []string
 	Results    []string
 	Requires   []*Clause
@@ -462,7 +463,7 @@ type ContractSet struct {
 	Files  []string
 }
 
-var clauseHead = regexp.MustCompile(`^(func|external|lemma|requires|ensures|invariant|decreases|assigns|loop|trusted|may_panic|var|hyp|concl|fuel)\b(\[[^\]]*\])?\s*(.*)$`)
+var clauseHead = regexp.MustCompile(`^(func|external|lemma|requires|ensures|invariant|decreases|assigns|loop|trusted|may_panic|fresh|var|hyp|concl|fuel)\b(\[[^\]]*\])?\s*(.*)$`)
 
 func loadContracts(files []string) (*ContractSet, error) {
 	cs := &ContractSet{ByKey: map[string]*Contract{}}
@@ -614,6 +615,11 @@ func (cs *ContractSet) parseFile(file, src string) error {
 				return fmt.Errorf("%s:%d: trusted outside func", file, r.line)
 			}
 			cur.Trusted = true
+		case "fresh":
+			if cur == nil {
+				return fmt.Errorf("%s:%d: fresh outside func", file, r.line)
+			}
+			cur.Fresh = true
 		case "may_panic":
 			if cur == nil {
 				return fmt.Errorf("%s:%d: may_panic outside func", file, r.line)
